@@ -347,7 +347,7 @@ func handshakeTimeout(r *vh.Runner, c *vh.Case, i int) {
 		// silent peer
 		hsTimeout := time.Duration(rng.Pick(100, 1000, 3000)) * time.Millisecond
 		cl, _ := w.NewClient(id, hidden, hsTimeout)
-		dropAfter := rng.Intn(3) // which server reply goes missing (discoverable: hello or auth)
+		dropAfter := rng.Intn(2) // which server reply goes missing (discoverable: 0 the hello, 1 the auth)
 		n := 0
 		w.Net.SetPolicy(func(d *simnet.Datagram) []simnet.Delivery {
 			if d.Src.String() == w.SrvAddr.String() {
@@ -695,6 +695,78 @@ func acceptOverflowRun(r *vh.Runner, c *vh.Case, i int) {
 	for _, cl := range clients {
 		go cl.Close()
 	}
+}
+
+// socketWriteErrorRun (real time: the failure of interest is a lock that is
+// kept, on which later callers queue): the socket of one side refuses a write
+// (once, or from some point on); the failed call returns, and so does every
+// later Write/WriteMsg/Close on that handle or client and the Close of the
+// server.
+func socketWriteErrorRun(r *vh.Runner, c *vh.Case, i int) {
+	rng := vh.NewRand(r.Seed, "c17-sockerr", i)
+	cv := &transport.VerifyConfig{}
+	w := fix.NewWorld(false, cv, nil)
+	cv.Store = w.PKI.Store()
+	id := w.PKI.Issue(certs.RawStringName("client"))
+	cl, cep := w.NewClient(id, rng.Chance(0.3), 2*time.Second)
+	if err := cl.Handshake(); err != nil {
+		c.Inconclusive("handshake: " + err.Error())
+		go w.Server.Close()
+		return
+	}
+	h, err := w.Server.AcceptTimeout(2 * time.Second)
+	if err != nil {
+		c.Inconclusive("accept: " + err.Error())
+		go w.Server.Close()
+		return
+	}
+	side := []string{"server-handle", "client"}[i%2]
+	transient := rng.Bool()
+	ep := w.SrvEP
+	var wr interface {
+		WriteMsg([]byte) error
+		Write([]byte) (int, error)
+		Close() error
+	} = h
+	if side == "client" {
+		ep, wr = cep, cl
+	}
+	detail := map[string]any{"side": side, "transient_error": transient}
+	r.Count("evaluations", 1)
+	r.Count("socket_write_errors:"+side, 1)
+	r.Nontrivial(fmt.Sprintf("sockerr|%d", i))
+	bounded := func(name string, f func()) bool {
+		done := make(chan struct{})
+		go func() { f(); close(done) }()
+		select {
+		case <-done:
+			return true
+		case <-time.After(8 * time.Second):
+			same, dump := vh.StuckIn(3*time.Second, "hop/transport.")
+			if !same {
+				c.Inconclusive("real-time socket-error case slow but still moving: " + name)
+				return false
+			}
+			detail["goroutine_dump"] = dump
+			c.Violate("C17:transport-call-never-returns:"+name+":after-socket-write-error:"+side, detail)
+			return false
+		}
+	}
+	wr.WriteMsg([]byte("before"))
+	ep.FailWrites(&net.OpError{Op: "write", Net: "udp", Err: syscall.ENOBUFS})
+	ok := bounded("WriteMsg", func() { detail["failed_write"] = fmt.Sprint(wr.WriteMsg(rng.Bytes(1 + rng.Intn(300)))) })
+	if transient {
+		ep.FailWrites(nil)
+	}
+	ok = ok && bounded("WriteMsg", func() { wr.WriteMsg([]byte("after")) }) &&
+		bounded("Write", func() { wr.Write(rng.Bytes(rng.Pick(1, 100, 70000))) }) &&
+		bounded("Close", func() { wr.Close() })
+	if ok {
+		bounded("Server.Close", func() { w.Server.Close() })
+	} else {
+		go w.Server.Close()
+	}
+	go cl.Close()
 }
 
 // roamUnderWritesRun (real time): the server handle and the client write
